@@ -545,7 +545,7 @@ def fund_and_build(
     total_in = sum(s.value for s in specs)
     lock_time = max([s.path.lock_time or 0 for s in specs])
     if not lock_time:
-        lock_time = ch.pick([0, 0, 850_000, 1], "lock_time")
+        lock_time = ch.pick([0, 0, 850_000, 1, 1_700_000_000, 500_000_000], "lock_time")
     # capped so that a quarter of what comes in always covers it (< 6000 vbytes for four inputs of any shape,
     # < 15000 with hundreds of payments)
     rate = FeeRate(sats_per_kvbyte=min(total_in // (24 if n_pay <= 16 else 60), ch.pick([1000, 0, 1, 253, 999, 1001, 1500, 12_345, 100_000], "fee.rate") + ch.draw(2, "fee.odd")))
